@@ -121,64 +121,33 @@ Proof.
 Qed.
 
 (* ------------------------------------------------------------------ J1: the encoder *)
-Lemma float_token_ok : forall b, float_enc_ok b = true ->
-  float_token b = if f_finite b then Some (JNum false 0 b) else None.
+Lemma encoder_agrees_l : forall ib v, to_json ib v = spec_to_json ib v.
 Proof.
-  intros b H. unfold float_token, float_enc_ok in *.
-  destruct (f_finite b); cbn [negb]; [|reflexivity].
-  destruct (f_integral b) as [z|]; [|reflexivity]. cbn [negb orb] in H.
-  destruct (Z.abs z <? 1000000000000000000000)%Z; [discriminate|reflexivity].
-Qed.
-
-Lemma encoder_agrees_l : forall ib v, enc_ok v = true -> to_json ib v = spec_to_json ib v.
-Proof.
-  intros ib v. induction v as [| b | z | b | s | l IH | l IH | l IH] using pval_ind2; intros H;
-    try reflexivity.
-  - cbn [to_json spec_to_json]. apply float_token_ok. exact H.
-  - cbn [enc_ok] in H. cbn [to_json spec_to_json].
-    rewrite (opt_map_all_ext (to_json ib) (spec_to_json ib) l); [reflexivity|].
-    rewrite Forall_forall in *. intros x Hx. apply IH; [exact Hx|].
-    rewrite forallb_forall in H. apply H. exact Hx.
-  - cbn [enc_ok] in H. cbn [to_json spec_to_json].
-    rewrite (opt_map_all_ext _ (fun kv => match spec_to_json ib (snd kv) with
+  intros ib v. induction v as [| b | z | b | s | l IH | l IH | l IH] using pval_ind2; try reflexivity.
+  - cbn [to_json spec_to_json].
+    rewrite (opt_map_all_ext (to_json ib) (spec_to_json ib) l); [reflexivity|exact IH].
+  - cbn [to_json spec_to_json].
+    rewrite (opt_map_all_ext _ (fun kv => match (if utf8_valid (fst kv) then spec_to_json ib (snd kv) else None) with
                                           | Some t => Some (fst kv, t) | None => None end) l); [reflexivity|].
-    rewrite Forall_forall in *. intros x Hx. rewrite IH; [reflexivity|exact Hx|].
-    rewrite forallb_forall in H. apply (H x Hx).
-  - discriminate.
+    rewrite Forall_forall in *. intros x Hx. destruct (utf8_valid (fst x)); [rewrite (IH x Hx)|]; reflexivity.
+  - cbn [to_json spec_to_json].
+    rewrite (opt_map_all_ext _ (fun kv => match (if utf8_valid (fst kv) then spec_to_json ib (snd kv) else None) with
+                                          | Some t => Some (fst kv, t) | None => None end) l); [reflexivity|].
+    rewrite Forall_forall in *. intros x Hx. destruct (utf8_valid (fst x)); [rewrite (IH x Hx)|]; reflexivity.
 Qed.
 
 (* ------------------------------------------------------------------ J2: default-mode decoder *)
-Lemma unmarshal_agrees : forall t, ints_ok t = true -> unmarshal_value t = Some (spec_of_json false t).
+Lemma unmarshal_agrees : forall t, unmarshal_value t = spec_of_json false t.
 Proof.
-  induction t as [| b | i z b | s | l IH | l IH] using jtree_ind2; intros H; try reflexivity.
-  - destruct i; cbn [ints_ok] in H; cbn [unmarshal_value spec_of_json]; rewrite H; reflexivity.
-  - cbn [ints_ok] in H. cbn [unmarshal_value spec_of_json].
-    rewrite (opt_map_all_some unmarshal_value (spec_of_json false) l); [reflexivity|].
-    rewrite Forall_forall in *. intros x Hx. apply IH; [exact Hx|].
-    rewrite forallb_forall in H. apply H. exact Hx.
-  - cbn [ints_ok] in H. cbn [unmarshal_value spec_of_json].
-    assert (E : map (fun kv : bytes * jtree => (fst kv, unmarshal_value (snd kv))) l =
-                map (on_snd Some) (map (on_snd (spec_of_json false)) l)).
-    { rewrite map_map. apply map_ext_in. intros kv Hin. unfold on_snd. cbn [fst snd].
-      rewrite Forall_forall in IH. rewrite (IH kv Hin); [reflexivity|].
-      rewrite forallb_forall in H. apply (H kv Hin). }
-    rewrite E. rewrite dedupe_map.
-    rewrite (opt_map_all_some _ (fun kv : bytes * option pval => (fst kv, match snd kv with Some v => v | None => PNull end))).
-    + rewrite map_map. f_equal. f_equal.
-      change (fun kv : bytes * jtree => (fst kv, spec_of_json false (snd kv)))
-        with (@on_snd jtree pval (spec_of_json false)).
-      rewrite <- (map_id (dedupe (map (on_snd (spec_of_json false)) l))) at 2.
-      apply map_ext. intros [k v]. reflexivity.
-    + rewrite Forall_forall. intros [k v] Hin. apply in_map_iff in Hin.
-      destruct Hin as ([k' v'] & E' & _). unfold on_snd in E'. cbn [fst snd] in E'. inversion E'; subst.
-      reflexivity.
+  induction t as [| b | i z b | s | l IH | l IH] using jtree_ind2; try reflexivity.
+  - cbn [unmarshal_value spec_of_json]. f_equal. apply map_ext_in. intros x Hx.
+    rewrite Forall_forall in IH. apply IH. exact Hx.
+  - cbn [unmarshal_value spec_of_json]. f_equal. f_equal. apply map_ext_in. intros kv Hin.
+    rewrite Forall_forall in IH. rewrite (IH kv Hin). reflexivity.
 Qed.
 
-Lemma decode_default_agrees_l : forall t, is_obj t = true -> ints_ok t = true ->
-  decode_default t = Some (spec_of_json false t).
-Proof.
-  intros t Ho Hi. destruct t; try discriminate. cbn [decode_default]. apply unmarshal_agrees. exact Hi.
-Qed.
+Lemma decode_default_agrees_l : forall t, is_obj t = true -> decode_default t = Some (spec_of_json false t).
+Proof. intros t Ho. destruct t; try discriminate. cbn [decode_default]. rewrite unmarshal_agrees. reflexivity. Qed.
 
 (* ------------------------------------------------------------------ J3: assoc-mode decoder *)
 Lemma bytes_eqb_nil : forall a b, bytes_eqb a b = true -> is_nil a = is_nil b.
@@ -204,33 +173,25 @@ Proof.
   cbn [forallb fst]. rewrite E2, H. reflexivity.
 Qed.
 
-Lemma convert_agrees : forall t, exact_tokens t = true -> keys_ok t = true -> convert_go t = spec_of_json true t.
+Lemma assoc_agrees : forall t, keys_ok t = true -> assoc_value (unmarshal_value t) = spec_of_json true t.
 Proof.
-  induction t as [| b | i z b | s | l IH | l IH] using jtree_ind2; intros H K; try reflexivity.
-  - cbn [exact_tokens] in H. unfold token_exact in H. cbn [convert_go spec_of_json]. unfold number_of_float.
-    apply andb_prop in H. destruct H as [_ H].
-    destruct i.
-    + apply andb_prop in H. destruct H as [Hz Hb]. rewrite Hz.
-      destruct (f_integral b) as [z'|]; [|discriminate].
-      assert (z' = z) by lia. subst. unfold int64_ok in Hz.
-      replace ((-9223372036854775808 <=? z)%Z && (z <? 9223372036854775808)%Z) with true by lia. reflexivity.
-    + destruct (f_integral b) as [z'|]; [|reflexivity].
-      destruct ((-9223372036854775808 <=? z')%Z && (z' <? 9223372036854775808)%Z); [discriminate|reflexivity].
-  - cbn [exact_tokens] in H. cbn [keys_ok] in K. cbn [convert_go spec_of_json]. f_equal.
-    apply map_ext_in. intros x Hx. rewrite Forall_forall in IH. apply IH; [exact Hx| |].
-    + rewrite forallb_forall in H. apply H. exact Hx.
-    + rewrite forallb_forall in K. apply K. exact Hx.
-  - cbn [exact_tokens] in H. cbn [keys_ok] in K. cbn [convert_go spec_of_json].
-    assert (E : map (fun kv : bytes * jtree => (fst kv, convert_go (snd kv))) l =
-                map (fun kv : bytes * jtree => (fst kv, spec_of_json true (snd kv))) l).
-    { apply map_ext_in. intros kv Hin. rewrite Forall_forall in IH. rewrite (IH kv Hin); [reflexivity| |].
-      - rewrite forallb_forall in H. apply (H kv Hin).
-      - rewrite forallb_forall in K. specialize (K kv Hin). apply andb_prop in K. apply K. }
-    rewrite E. cbv zeta.
+  induction t as [| b | i z b | s | l IH | l IH] using jtree_ind2; intros K; try reflexivity.
+  - cbn [unmarshal_value spec_of_json]. destruct i; [destruct (int64_ok z)|]; reflexivity.
+  - cbn [keys_ok] in K. cbn [unmarshal_value assoc_value spec_of_json]. f_equal. rewrite map_map.
+    apply map_ext_in. intros x Hx. rewrite Forall_forall in IH. apply IH; [exact Hx|].
+    rewrite forallb_forall in K. apply K. exact Hx.
+  - cbn [keys_ok] in K. cbn [unmarshal_value assoc_value spec_of_json].
+    assert (E : map (fun kv : bytes * pval => (fst kv, assoc_value (snd kv)))
+                    (dedupe (map (fun kv : bytes * jtree => (fst kv, unmarshal_value (snd kv))) l)) =
+                dedupe (map (fun kv : bytes * jtree => (fst kv, spec_of_json true (snd kv))) l)).
+    { change (fun kv : bytes * pval => (fst kv, assoc_value (snd kv))) with (@on_snd pval pval assoc_value).
+      rewrite <- dedupe_map. f_equal. rewrite map_map. apply map_ext_in. intros kv Hin.
+      unfold on_snd. cbn [fst snd]. rewrite Forall_forall in IH. rewrite (IH kv Hin); [reflexivity|].
+      rewrite forallb_forall in K. specialize (K kv Hin). apply andb_prop in K. apply K. }
+    cbv zeta. rewrite E. clear E.
     destruct l as [|[k0 t0] l']; [reflexivity|].
     cbn [map fst snd]. rewrite dedupe_head_key.
-    + unfold mk_arr. destruct (dedupe _) eqn:D; [|reflexivity].
-      (* the deduplicated list of a non-empty list is not empty *)
+    + match goal with |- _ = mk_arr ?X => destruct X eqn:D end; [|reflexivity].
       unfold dedupe in D. cbn [fold_left fst snd map_put] in D.
       destruct (fold_put_head (map (fun kv : bytes * jtree => (fst kv, spec_of_json true (snd kv))) l') k0
                               (spec_of_json true t0) []) as (k' & v' & rest & E1 & _).
@@ -239,22 +200,16 @@ Proof.
       apply andb_prop in K0. destruct K0 as [K0 _]. apply negb_true_iff in K0. exact K0.
 Qed.
 
-Lemma exact_all_finite : forall t, exact_tokens t = true -> all_finite t = true.
-Proof.
-  induction t as [| b | i z b | s | l IH | l IH] using jtree_ind2; intros H; try reflexivity.
-  - cbn [exact_tokens] in H. unfold token_exact in H. apply andb_prop in H. apply H.
-  - cbn [exact_tokens] in H. cbn [all_finite]. rewrite forallb_forall in *. rewrite Forall_forall in IH.
-    intros x Hx. apply IH; [exact Hx|apply H; exact Hx].
-  - cbn [exact_tokens] in H. cbn [all_finite]. rewrite forallb_forall in *. rewrite Forall_forall in IH.
-    intros x Hx. apply IH; [exact Hx|apply H; exact Hx].
-Qed.
+Lemma decode_assoc_agrees_l : forall t, keys_ok t = true -> decode_assoc t = Some (spec_of_json true t).
+Proof. intros t K. unfold decode_assoc. rewrite assoc_agrees by exact K. reflexivity. Qed.
 
-Lemma decode_assoc_agrees_l : forall t, exact_tokens t = true -> keys_ok t = true ->
-  decode_assoc t = Some (spec_of_json true t).
-Proof.
-  intros t H K. unfold decode_assoc. rewrite exact_all_finite by exact H.
-  rewrite convert_agrees by assumption. reflexivity.
-Qed.
+(* with the nesting limit *)
+Lemma json_decode_default_agrees_l : forall depth t, is_obj t = true ->
+  json_decode false depth t = spec_decode false depth t.
+Proof. intros depth t H. unfold json_decode, spec_decode. rewrite decode_default_agrees_l by exact H. reflexivity. Qed.
+Lemma json_decode_assoc_agrees_l : forall depth t, keys_ok t = true ->
+  json_decode true depth t = spec_decode true depth t.
+Proof. intros depth t H. unfold json_decode, spec_decode. rewrite decode_assoc_agrees_l by exact H. reflexivity. Qed.
 
 (* ------------------------------------------------------------------ J4: the reference reading round-trips *)
 Lemma spec_roundtrip_l : forall ib assoc v, spec_ok v = true ->
@@ -265,7 +220,7 @@ Proof.
   - exists (JBool b). split; reflexivity.
   - cbn [spec_ok] in H. exists (JNum true z (ib z)). split; [reflexivity|]. cbn [spec_of_json]. rewrite H. reflexivity.
   - cbn [spec_ok] in H. exists (JNum false 0 b). split; [cbn [spec_to_json]; rewrite H; reflexivity|reflexivity].
-  - exists (JStr s). split; reflexivity.
+  - cbn [spec_ok] in H. exists (JStr s). split; [cbn [spec_to_json]; rewrite H; reflexivity|reflexivity].
   - cbn [spec_ok] in H.
     assert (exists ts, opt_map_all (spec_to_json ib) l = Some ts /\ map (spec_of_json assoc) ts = map (view assoc) l)
       as (ts & E1 & E2).
@@ -275,27 +230,29 @@ Proof.
       exists (t :: ts). split; [cbn; rewrite Et, E1; reflexivity|cbn; rewrite Ev, E2; reflexivity]. }
     exists (JArr ts). split; [cbn [spec_to_json]; rewrite E1; reflexivity|cbn [spec_of_json view]; rewrite E2; reflexivity].
   - cbn [spec_ok] in H. apply andb_prop in H. destruct H as [Hn H].
-    assert (exists ts, opt_map_all (fun kv => match spec_to_json ib (snd kv) with
+    assert (exists ts, opt_map_all (fun kv => match (if utf8_valid (fst kv) then spec_to_json ib (snd kv) else None) with
                                               | Some t => Some (fst kv, t) | None => None end) l = Some ts /\
                        map (on_snd (spec_of_json assoc)) ts = map (on_snd (view assoc)) l)
       as (ts & E1 & E2).
     { clear Hn. induction IH as [|[k x] l Hx Hl IHl]; [exists []; split; reflexivity|].
-      cbn [forallb snd] in H. apply andb_prop in H. destruct H as [H1 H2]. cbn [snd] in Hx.
+      cbn [forallb fst snd] in H. apply andb_prop in H. destruct H as [H1 H2]. cbn [snd] in Hx.
+      apply andb_prop in H1. destruct H1 as [U1 H1].
       destruct (Hx H1) as (t & Et & Ev). destruct (IHl H2) as (ts & E1 & E2).
-      exists ((k, t) :: ts). split; [cbn; rewrite Et, E1; reflexivity|].
+      exists ((k, t) :: ts). split; [cbn; rewrite U1, Et, E1; reflexivity|].
       cbn [map]. unfold on_snd at 1 3. cbn [fst snd]. rewrite Ev, E2. reflexivity. }
     exists (JObj ts). split; [cbn [spec_to_json]; rewrite E1; reflexivity|].
     cbn [spec_of_json view]. fold (@on_snd jtree pval (spec_of_json assoc)). rewrite E2.
     rewrite dedupe_nodup by (rewrite nodup_map; exact Hn). reflexivity.
   - cbn [spec_ok] in H. apply andb_prop in H. destruct H as [Hn H].
-    assert (exists ts, opt_map_all (fun kv => match spec_to_json ib (snd kv) with
+    assert (exists ts, opt_map_all (fun kv => match (if utf8_valid (fst kv) then spec_to_json ib (snd kv) else None) with
                                               | Some t => Some (fst kv, t) | None => None end) l = Some ts /\
                        map (on_snd (spec_of_json assoc)) ts = map (on_snd (view assoc)) l)
       as (ts & E1 & E2).
     { clear Hn. induction IH as [|[k x] l Hx Hl IHl]; [exists []; split; reflexivity|].
-      cbn [forallb snd] in H. apply andb_prop in H. destruct H as [H1 H2]. cbn [snd] in Hx.
+      cbn [forallb fst snd] in H. apply andb_prop in H. destruct H as [H1 H2]. cbn [snd] in Hx.
+      apply andb_prop in H1. destruct H1 as [U1 H1].
       destruct (Hx H1) as (t & Et & Ev). destruct (IHl H2) as (ts & E1 & E2).
-      exists ((k, t) :: ts). split; [cbn; rewrite Et, E1; reflexivity|].
+      exists ((k, t) :: ts). split; [cbn; rewrite U1, Et, E1; reflexivity|].
       cbn [map]. unfold on_snd at 1 3. cbn [fst snd]. rewrite Ev, E2. reflexivity. }
     exists (JObj ts). split; [cbn [spec_to_json]; rewrite E1; reflexivity|].
     cbn [spec_of_json view]. fold (@on_snd jtree pval (spec_of_json assoc)). rewrite E2.
@@ -312,93 +269,57 @@ Proof.
     inversion H; subst. constructor; [exact E|apply IH; reflexivity].
 Qed.
 
-Lemma f_integral_finite : forall b z, f_integral b = Some z -> f_finite b = true.
+Lemma spec_tree_keys : forall ib v t, vkeys_ok v = true -> spec_to_json ib v = Some t -> keys_ok t = true.
 Proof.
-  intros b z H. unfold f_integral in H. unfold f_finite.
-  destruct (f_exp b =? 2047); [discriminate|reflexivity].
-Qed.
-
-Lemma spec_tree_ints : forall ib v t, spec_ok v = true -> spec_to_json ib v = Some t -> ints_ok t = true.
-Proof.
-  intros ib v. induction v as [| b | z | b | s | l IH | l IH | l IH] using pval_ind2; intros t Hs Ht;
+  intros ib v. induction v as [| b | z | b | s | l IH | l IH | l IH] using pval_ind2; intros t Ha Ht;
     cbn [spec_to_json] in Ht.
   - inversion Ht; reflexivity.
   - inversion Ht; reflexivity.
-  - inversion Ht; subst. exact Hs.
-  - destruct (f_finite b) eqn:F; inversion Ht; subst. cbn [ints_ok]. exact F.
   - inversion Ht; reflexivity.
+  - destruct (f_finite b); inversion Ht; reflexivity.
+  - destruct (utf8_valid s); inversion Ht; reflexivity.
   - destruct (opt_map_all (spec_to_json ib) l) as [ts|] eqn:E; [|discriminate]. inversion Ht; subst.
-    apply opt_map_all_inv in E. cbn [spec_ok] in Hs. cbn [ints_ok].
+    apply opt_map_all_inv in E. cbn [vkeys_ok] in Ha. cbn [keys_ok].
     induction E as [|x y l ts Hxy E IHE]; [reflexivity|].
-    inversion IH as [|x0 l0 P1 P2]; subst. cbn [forallb] in *. apply andb_prop in Hs. destruct Hs as [S1 S2].
-    rewrite (P1 y S1 Hxy). cbn [andb]. apply IHE; auto.
-  - destruct (opt_map_all _ l) as [ts|] eqn:E; [|discriminate]. inversion Ht; subst.
-    apply opt_map_all_inv in E. cbn [spec_ok] in Hs. apply andb_prop in Hs. destruct Hs as [_ Hs]. cbn [ints_ok].
-    induction E as [|[k x] [k' y] l ts Hxy E IHE]; [reflexivity|].
-    inversion IH as [|x0 l0 P1 P2]; subst. cbn [forallb snd] in *. apply andb_prop in Hs. destruct Hs as [S1 S2].
-    destruct (spec_to_json ib x) as [t0|] eqn:Ex; [|discriminate]. inversion Hxy; subst.
-    rewrite (P1 y S1 eq_refl). cbn [andb]. apply IHE; auto.
-  - destruct (opt_map_all _ l) as [ts|] eqn:E; [|discriminate]. inversion Ht; subst.
-    apply opt_map_all_inv in E. cbn [spec_ok] in Hs. apply andb_prop in Hs. destruct Hs as [_ Hs]. cbn [ints_ok].
-    induction E as [|[k x] [k' y] l ts Hxy E IHE]; [reflexivity|].
-    inversion IH as [|x0 l0 P1 P2]; subst. cbn [forallb snd] in *. apply andb_prop in Hs. destruct Hs as [S1 S2].
-    destruct (spec_to_json ib x) as [t0|] eqn:Ex; [|discriminate]. inversion Hxy; subst.
-    rewrite (P1 y S1 eq_refl). cbn [andb]. apply IHE; auto.
-Qed.
-
-Lemma spec_tree_exact : forall ib v t, spec_ok v = true -> assoc_ok ib v = true ->
-  spec_to_json ib v = Some t -> exact_tokens t = true /\ keys_ok t = true.
-Proof.
-  intros ib v. induction v as [| b | z | b | s | l IH | l IH | l IH] using pval_ind2; intros t Hs Ha Ht;
-    cbn [spec_to_json] in Ht.
-  - inversion Ht; split; reflexivity.
-  - inversion Ht; split; reflexivity.
-  - inversion Ht; subst. split; [|reflexivity]. cbn [exact_tokens]. unfold token_exact. cbn [spec_ok] in Hs. rewrite Hs.
-    cbn [assoc_ok] in Ha. destruct (f_integral (ib z)) as [z'|] eqn:FI; [|discriminate].
-    rewrite (f_integral_finite _ _ FI). exact Ha.
-  - destruct (f_finite b); inversion Ht; subst. split; [exact Ha|reflexivity].
-  - inversion Ht; split; reflexivity.
-  - destruct (opt_map_all (spec_to_json ib) l) as [ts|] eqn:E; [|discriminate]. inversion Ht; subst.
-    apply opt_map_all_inv in E. cbn [spec_ok] in Hs. cbn [assoc_ok] in Ha. cbn [exact_tokens keys_ok].
-    induction E as [|x y l ts Hxy E IHE]; [split; reflexivity|].
-    inversion IH as [|x0 l0 P1 P2]; subst. cbn [forallb] in *. apply andb_prop in Hs. destruct Hs as [S1 S2].
+    inversion IH as [|x0 l0 P1 P2]; subst. cbn [forallb] in *.
     apply andb_prop in Ha. destruct Ha as [A1 A2].
-    destruct (P1 y S1 A1 Hxy) as [Q1 Q2]. rewrite Q1, Q2. cbn [andb]. apply IHE; auto.
+    rewrite (P1 y A1 Hxy). cbn [andb]. apply IHE; auto.
   - destruct (opt_map_all _ l) as [ts|] eqn:E; [|discriminate]. inversion Ht; subst.
-    apply opt_map_all_inv in E. cbn [spec_ok] in Hs. apply andb_prop in Hs. destruct Hs as [_ Hs].
-    cbn [assoc_ok] in Ha. cbn [exact_tokens keys_ok].
-    induction E as [|[k x] [k' y] l ts Hxy E IHE]; [split; reflexivity|].
-    inversion IH as [|x0 l0 P1 P2]; subst. cbn [forallb fst snd] in *. apply andb_prop in Hs. destruct Hs as [S1 S2].
+    apply opt_map_all_inv in E. cbn [vkeys_ok] in Ha. cbn [keys_ok].
+    induction E as [|[k x] [k' y] l ts Hxy E IHE]; [reflexivity|].
+    inversion IH as [|x0 l0 P1 P2]; subst. cbn [forallb fst snd] in *.
     apply andb_prop in Ha. destruct Ha as [A1 A2]. apply andb_prop in A1. destruct A1 as [A0 A1].
+    destruct (utf8_valid k); [|discriminate].
     destruct (spec_to_json ib x) as [t0|] eqn:Ex; [|discriminate]. inversion Hxy; subst.
-    destruct (P1 y S1 A1 eq_refl) as [Q1 Q2]. rewrite Q1, Q2, A0. cbn [andb]. apply IHE; auto.
+    rewrite (P1 y A1 eq_refl), A0. cbn [andb]. apply IHE; auto.
   - destruct (opt_map_all _ l) as [ts|] eqn:E; [|discriminate]. inversion Ht; subst.
-    apply opt_map_all_inv in E. cbn [spec_ok] in Hs. apply andb_prop in Hs. destruct Hs as [_ Hs].
-    cbn [assoc_ok] in Ha. cbn [exact_tokens keys_ok].
-    induction E as [|[k x] [k' y] l ts Hxy E IHE]; [split; reflexivity|].
-    inversion IH as [|x0 l0 P1 P2]; subst. cbn [forallb fst snd] in *. apply andb_prop in Hs. destruct Hs as [S1 S2].
+    apply opt_map_all_inv in E. cbn [vkeys_ok] in Ha. cbn [keys_ok].
+    induction E as [|[k x] [k' y] l ts Hxy E IHE]; [reflexivity|].
+    inversion IH as [|x0 l0 P1 P2]; subst. cbn [forallb fst snd] in *.
     apply andb_prop in Ha. destruct Ha as [A1 A2]. apply andb_prop in A1. destruct A1 as [A0 A1].
+    destruct (utf8_valid k); [|discriminate].
     destruct (spec_to_json ib x) as [t0|] eqn:Ex; [|discriminate]. inversion Hxy; subst.
-    destruct (P1 y S1 A1 eq_refl) as [Q1 Q2]. rewrite Q1, Q2, A0. cbn [andb]. apply IHE; auto.
+    rewrite (P1 y A1 eq_refl), A0. cbn [andb]. apply IHE; auto.
 Qed.
 
-Lemma json_roundtrip_default_l : forall ib l, let v := PMap l in
-  enc_ok v = true -> spec_ok v = true ->
-  json_decode false (json_encode ib v) = Some (view false v).
+Lemma json_roundtrip_default_l : forall ib depth l, let v := PMap l in
+  spec_ok v = true -> (nesting (view false v) <= depth)%Z ->
+  exists t, json_encode ib v = Some t /\ json_decode false depth t = Some (view false v).
 Proof.
-  intros ib l v He Hs. unfold json_encode. rewrite encoder_agrees_l by exact He.
-  destruct (spec_roundtrip_l ib false v Hs) as (t & Et & Ev). rewrite Et.
-  cbn [json_decode]. rewrite <- Ev. apply decode_default_agrees_l.
-  - unfold v in Et. cbn [spec_to_json] in Et. destruct (opt_map_all _ l); inversion Et; reflexivity.
-  - eapply spec_tree_ints; eauto.
+  intros ib depth l v Hs Hd. unfold json_encode. rewrite encoder_agrees_l.
+  destruct (spec_roundtrip_l ib false v Hs) as (t & Et & Ev). exists t. split; [exact Et|].
+  assert (Ho : is_obj t = true).
+  { unfold v in Et. cbn [spec_to_json] in Et. destruct (opt_map_all _ l); inversion Et; reflexivity. }
+  rewrite json_decode_default_agrees_l by exact Ho. unfold spec_decode. rewrite Ev.
+  replace (depth <? nesting (view false v))%Z with false by lia. reflexivity.
 Qed.
 
-Lemma json_roundtrip_assoc_l : forall ib v,
-  enc_ok v = true -> spec_ok v = true -> assoc_ok ib v = true ->
-  json_decode true (json_encode ib v) = Some (view true v).
+Lemma json_roundtrip_assoc_l : forall ib depth v,
+  spec_ok v = true -> vkeys_ok v = true -> (nesting (view true v) <= depth)%Z ->
+  exists t, json_encode ib v = Some t /\ json_decode true depth t = Some (view true v).
 Proof.
-  intros ib v He Hs Ha. unfold json_encode. rewrite encoder_agrees_l by exact He.
-  destruct (spec_roundtrip_l ib true v Hs) as (t & Et & Ev). rewrite Et.
-  cbn [json_decode]. rewrite <- Ev. destruct (spec_tree_exact ib v t Hs Ha Et) as [Q1 Q2].
-  apply decode_assoc_agrees_l; assumption.
+  intros ib depth v Hs Hk Hd. unfold json_encode. rewrite encoder_agrees_l.
+  destruct (spec_roundtrip_l ib true v Hs) as (t & Et & Ev). exists t. split; [exact Et|].
+  rewrite json_decode_assoc_agrees_l by (eapply spec_tree_keys; eauto). unfold spec_decode. rewrite Ev.
+  replace (depth <? nesting (view true v))%Z with false by lia. reflexivity.
 Qed.
